@@ -376,6 +376,11 @@ def run_c05(ctx):
         if int(fb["runs"]) != len(finals) or dec(fb.get("scheds", "")) != real_set or fb["best"] != str(real_best):
             ctx.disagreement("ffsp: exhaustive exploration differs between model and real env",
                              {"inst": inst, "model": rb[:400], "real_runs": len(finals), "real_best": real_best})
+        if fe.get("sndsub") == "0":
+            ctx.disagreement("ffsp: a strictly non-delay valid schedule is not expressible (contradicts expressible_of_strictNonDelay)",
+                             {"inst": inst})
+        ctx.count("ffsp.valid-nondelay", int(fe.get("nnd", 0)))
+        ctx.count("ffsp.valid-nondelay-expressible", int(fe.get("ndexpr", 0)))
         if dec(fe.get("expr", "")) != real_set:
             ctx.disagreement("ffsp: Spec.expressible does not characterise the mask-reachable schedules",
                              {"inst": inst, "expressible": fe.get("expr", "")[:400], "reachable": real_set[:10]})
@@ -416,6 +421,17 @@ THEOREMS = {
         T("Rl4co.Ffsp.smidx_flat", "proved", "flatten_stages=True: stage_machine_idx = machine_idx"),
         T("Rl4co.Ffsp.apply_flat_irrelevant", "proved", "the bookkeeping of _step does not depend on flatten_stages"),
         T("Rl4co.Ffsp.rowInst_wf", "proved", "the instance a batch row is stepped as (permutation from IndexTables) is WF"),
+        T("Rl4co.Ffsp.batch_final", "proved",
+          "∀ batch ∀ row: at the step finishing the batch every row (however long padded) is done, carries a Spec-valid schedule "
+          "and its written reward is −makespan"),
+        T("Rl4co.Ffsp.valid_schedule_exists", "proved", "Spec sanity: every WF instance has a valid schedule (Valid is never vacuous)"),
+        T("Rl4co.Spec.Ffsp.valid_of_perm", "proved", "Spec sanity: validity does not depend on the listing order of the operations"),
+        T("Rl4co.Spec.Ffsp.valid_shift", "proved", "Spec sanity: validity is invariant under a common time shift c ≥ 0"),
+        T("Rl4co.Spec.Ffsp.isMakespan_shift", "proved", "Spec sanity: the makespan shifts along"),
+        T("Rl4co.Spec.Ffsp.makespan_ge", "proved", "Spec sanity: the makespan dominates every completion time and every processing time used"),
+        T("Rl4co.Ffsp.tables_match", "proved",
+          "obligation on the REGENERATED index tables (IndexTables source executed for 2x3, both flatten settings): "
+          "stage_table / machine_table / stage_machine_table = the model's stageOf / machineOf / stageMachineOf"),
         T("Rl4co.Ffsp.job_steps", "proved", "in a finished episode every job was chosen exactly S times (all other actions are waits)"),
         T("Rl4co.Ffsp.reward_eq_makespan", "proved", "solo: the reward written equals minus the Spec makespan (latest completion)"),
         T("Rl4co.Ffsp.reward_eq_makespan_row", "proved", "row of a batch: the reward written at the batch's last step is minus the makespan"),
@@ -425,6 +441,9 @@ THEOREMS = {
           "solo: reward is written at the finishing step and equals −makespan of the schedule (durations < 999999, the sentinel)"),
         T("Rl4co.Ffsp.reward_eq_makespan_row", "proved", "row of a batch: same at the step where done.all() becomes true"),
         T("Rl4co.Ffsp.rewardCols_eq", "proved", "obligation on the extracted slice bound: the makespan ignores the dummy (wait) column"),
+        T("Rl4co.Ffsp.reward_sentinel_threshold", "proved",
+          "exact threshold of the sentinel collision: unused duration 10^6 still harmless at makespan 1, 10^6+1 gives reward −2"),
+        T("Rl4co.Ffsp.small_lt_unset", "proved", "obligation on the extracted sentinel (WF.dur_lt is stated against it)"),
         T("Rl4co.Ffsp.reward_needs_duration_bound", "proved",
           "counterexample (known finding): without the duration bound the reward is not −makespan (sentinel −999999 wins the max)"),
     ],
@@ -437,6 +456,14 @@ THEOREMS = {
         T("Rl4co.Ffsp.finished_offers_wait_only", "proved", "a finished row next to running batch-mates is offered exactly the wait action"),
         T("Rl4co.Ffsp.done_stable", "proved", "done is absorbing under every admitted step, whatever done.all() is"),
         T("Rl4co.Ffsp.clock_increases", "proved", "(time_idx, sub_time_idx) strictly increases on every step that leaves the row unfinished"),
+        T("Rl4co.Ffsp.move_iterations_le", "proved",
+          "_move_to_next_machine: the while body runs n ≥ 1 times per step, pos' = pos + n < (D+1)·M·S — instance data only; "
+          "fewer than (D+1)·M·S body runs over a whole episode"),
+        T("Rl4co.Ffsp.batch_mask_nonempty", "proved", "∀ batch ∀ row: every row of every running batch is offered an action"),
+        T("Rl4co.Ffsp.exists_finished_episode", "proved", "every WF instance has a finished mask-confined episode"),
+        T("Rl4co.Ffsp.repaired_mask_nonempty", "proved",
+          "repaired clause: with the done.all() shortcut removed, every state reachable by ANY mask-confined run offers an action"),
+        T("Rl4co.Ffsp.repaired_done_absorbing", "proved", "repaired clause: … and done is absorbing, also after the batch is finished"),
         T("Rl4co.Ffsp.time_le_work", "proved", "all durations ≥ 0: time_idx of an unfinished row ≤ total work D (a duration 0 counted as 1)"),
         T("Rl4co.Ffsp.steps_le", "proved", "all durations ≥ 0: a row is finished after at most (D+1)·M·S steps"),
         T("Rl4co.Ffsp.default_gen_wf", "proved",
@@ -459,6 +486,13 @@ THEOREMS = {
           "the batched while-loop of _move_to_next_machine (shrinking index set) acts on every row independently"),
         T("Rl4co.Ffsp.batchMove_eq_moveNext", "proved",
           "with the unfinished rows selected and enough global fuel, the batched loop = per-row moveNext on every row"),
+        T("Rl4co.Ffsp.batchRun_row_reach", "proved", "∀ batch ∀ row: every row of a running batch is in a state of its own per-row machine"),
+        T("Rl4co.Ffsp.repaired_state_batch_independent", "proved",
+          "repaired clause for the terminal-mask finding: without the shortcut the state a row ends in (mask included) is "
+          "independent of the batch-mates up to the reward field"),
+        T("Rl4co.Ffsp.repaired_terminal_mask_independent", "proved", "repaired clause: terminal mask equal for every value of done.all()"),
+        T("Rl4co.Ffsp.repaired_agrees", "proved", "the repaired step agrees with the real one on everything the bundled loops observe"),
+        T("Rl4co.Ffsp.tables_match", "proved", "regenerated IndexTables tables (2x3, both settings) = model index functions"),
         T("Rl4co.Ffsp.permsOf_length", "proved", "IndexTables: the permutation table has M! rows (get_num_starts)"),
         T("Rl4co.Ffsp.tables_perm_lt", "proved", "every table row a batch row can select maps 0..M-1 into itself"),
         T("Rl4co.Ffsp.kmajor_perm", "proved",
@@ -482,6 +516,13 @@ THEOREMS = {
           "best reward through the mask = −(least makespan over valid expressible schedules), as an ∃…∧∀… equivalence"),
         T("Rl4co.Ffsp.rowInst_permBij", "proved", "every IndexTables row is a bijection, so the class theorems apply to every batch row"),
         T("Rl4co.Spec.Ffsp.expressible_iff", "proved", "the run-time oracle `expressible` is the decision procedure of the definition"),
+        T("Rl4co.Ffsp.expressible_of_strictNonDelay", "proved",
+          "every schedule that is non-delay under the sweep's tie rule is expressible (strict non-delay ⊆ expressible ⊆ valid)"),
+        T("Rl4co.Ffsp.nondelay_permutation_not_expressible", "proved",
+          "refutation: a valid, non-delay, permutation schedule (2 stages x 2 machines, 3 unit jobs) that is not expressible "
+          "under either machine permutation"),
+        T("Rl4co.Ffsp.double_start_clause_needed", "proved",
+          "zero durations: two zero-length jobs at the same time on one machine are valid but unreachable — why Expressible has its second clause"),
         T("Rl4co.Ffsp.not_opt_reachable", "proved",
           "counterexample (known finding): 'some mask-confined episode is as good as any VALID schedule' is false"),
         T("Rl4co.Ffsp.optimum_hidden", "proved",
@@ -489,10 +530,11 @@ THEOREMS = {
     ],
 }
 MODULES = {
-    "C07": ["Rl4co.Props.C07.Ffsp", "Rl4co.Props.C03.Ffsp", "Rl4co.Proofs.FfspTables"],
+    "C07": ["Rl4co.Props.C07.Ffsp", "Rl4co.Props.C03.Ffsp", "Rl4co.Proofs.FfspTables", "Rl4co.Proofs.FfspSpec",
+            "Rl4co.Props.C04.FfspBatch"],
     "C03": ["Rl4co.Props.C03.Ffsp"],
-    "C02": ["Rl4co.Props.C02.Ffsp", "Rl4co.Proofs.FfspTables"],
-    "C04": ["Rl4co.Props.C04.Ffsp", "Rl4co.Proofs.FfspTables"],
+    "C02": ["Rl4co.Props.C02.Ffsp", "Rl4co.Proofs.FfspTables", "Rl4co.Proofs.FfspSpec", "Rl4co.Props.C04.FfspBatch"],
+    "C04": ["Rl4co.Props.C04.Ffsp", "Rl4co.Proofs.FfspTables", "Rl4co.Props.C04.FfspBatch"],
     "C05": ["Rl4co.Props.C05.Ffsp"],
 }
 EXTRA = {
